@@ -405,6 +405,32 @@ def atom_tensor(sp: Space, name: str, sizes, conj=False, tags=None, merged=None)
     return Dense(sp, [Term(COEF1, [a], [tuple(ax) for ax in axes])])
 
 
+def _fn_atom(sp: Space, fn: str, d: Dense) -> Dense:
+    """An opaque function of a whole tensor (batched inverse, elementwise reciprocal): a fresh atom named by the canonical
+    form of its argument, with the same axis structure (merged axes stay merged, so a later reshape can un-merge them)."""
+    if not d.terms:
+        raise Unmodelled(f"{fn} of the zero tensor")
+    sizes, merged, tags = [], {}, []
+    for k, ax in enumerate(d.terms[0].out):
+        ws = [w for w in ax if not sp.is_unit(w)]
+        tot = ONE
+        for w in ws:
+            tot = tot * sp.sz(w)
+        sizes.append(tot)
+        tags.append("|".join(sp.tag.get(w, "") for w in ws))
+        if len(ws) > 1:
+            merged[k] = [sp.sz(w) for w in ws]
+    return atom_tensor(sp, f"{fn}[{d.canon()}]", sizes, tags=tags, merged=merged)
+
+
+def inv_atom(sp: Space, d: Dense) -> Dense:
+    return _fn_atom(sp, "inv", d)
+
+
+def recip_atom(sp: Space, d: Dense) -> Dense:
+    return _fn_atom(sp, "recip", d)
+
+
 def ones_tensor(sp: Space, sizes) -> Dense:
     atoms, out = [], []
     for s in sizes:
